@@ -561,9 +561,17 @@ sign<Number> sign<Number>::operator/(const sign<Number> &o) const {
   } else if (not_equal_zero() || o.not_equal_zero()) {
     return top();
   } else {
-    // Once we exclude top, bottom, zero, and non-zero
-    // signed division is like multiplication
-    return (*this) * o;
+    // Once we exclude top, bottom, zero, and non-zero signed division
+    // is like multiplication except that it truncates: the quotient
+    // of two non-zero numbers can be zero (1/6 = 0).
+    sign<Number> res = (*this) * o;
+    if (res.less_than_zero()) {
+      return sign<Number>(sign_interval::LEZ);
+    } else if (res.greater_than_zero()) {
+      return sign<Number>(sign_interval::GEZ);
+    } else {
+      return res;
+    }
   }
 }
 
